@@ -85,7 +85,8 @@ func judge(c *common.Ctx, j *judged) {
 		return
 	}
 	rp := j.p
-	if shrunk[key] < 2 && progSize(j.p) > 25 {
+	// recursive programs are not shrunk: a reduction can remove the base case and the real evaluator has no step limit
+	if shrunk[key] < 2 && progSize(j.p) > 25 && !strings.HasPrefix(j.p.Family, "recursive") {
 		shrunk[key]++
 		rp = shrink(j.p, key, 300)
 		what += " | shrunk: " + progText(rp)
@@ -467,7 +468,7 @@ func main() {
 	}
 	c := common.Setup("C10")
 	defer c.Finish()
-	c.Res.Rule = "each case = (views of one transform application, caller's scope) evaluated by the real eval.EvaluateView in a worker subprocess; streams: typed programs over the modelled operators (lets reused by later statements, helper views, iterations whose scope variable shadows a binding), the Appendix-B shapes (a list bound once and concatenated twice; where/flatten/transform whose scope variable equals an outer binding; set-typed transforms producing duplicates; plus unions of unsorted int / string sets with repeats, and transforms over map entries nested in a list transform), the two fixed regression inputs of the known findings, a let that takes a parameter's name / an outer let's name from inside a nested transform, the operator x kind x kind matrix at depth 1, all compositions of two operators over the literal pool whose value the reference defines (depth 2), blind mutants of typed programs (model comparison only); distinct = distinct program JSON; non-trivial = the main body applies at least one operator, transform or call"
+	c.Res.Rule = "each case = (views of one transform application, caller's scope) evaluated by the real eval.EvaluateView in a worker subprocess; streams: typed programs over the modelled operators (lets reused by later statements, helper views, iterations whose scope variable shadows a binding), the Appendix-B shapes (a list bound once and concatenated twice; where/flatten/transform whose scope variable equals an outer binding; set-typed transforms producing duplicates; plus unions of unsorted int / string sets with repeats, and transforms over map entries nested in a list transform), the two fixed regression inputs of the known findings, terminating self- and mutually recursive views with the recursive call as an operand of each operator in turn (re-entrant evaluation of one AST node), a let that takes a parameter's name / an outer let's name from inside a nested transform, the operator x kind x kind matrix at depth 1, all compositions of two operators over the literal pool whose value the reference defines (depth 2), blind mutants of typed programs (model comparison only); distinct = distinct program JSON; non-trivial = the main body applies at least one operator, transform or call"
 	par := 8
 
 	if c.Replay != "" {
@@ -514,6 +515,13 @@ func main() {
 			progs = append(progs, shapeLetRebind(c.Rng.Fork()), shapeNestedLetRebind(c.Rng.Fork()))
 		}
 	}
+	// A2. terminating recursive views: the recursive call as an operand of each operator in turn (re-entrant evaluation
+	// of one AST node), self-recursive for every template, seeded mutually recursive pairs
+	nmut := 30
+	if c.Thorough() || c.Search {
+		nmut = 30 * scale
+	}
+	progs = append(progs, recursivePrograms(c.Rng.Fork(), nmut)...)
 	// B. typed programs
 	ntyped := 450 * scale
 	for i := 0; i < ntyped; i++ {
@@ -643,6 +651,10 @@ func main() {
 		}
 		if p.Typed && j.err == nil {
 			c.Hist("oracle:judged")
+		}
+		if p.Typed && j.err != nil && strings.HasPrefix(p.Family, "recursive") {
+			c.Hist("oracle:recursive-program-outside-reference")
+			c.Res.Notes = append(c.Res.Notes, "recursive program outside the reference ("+j.err.Error()+"): "+p.Family)
 		}
 		if hasLetShadow(p) {
 			c.Hist("has-let-shadow")
